@@ -452,8 +452,25 @@ func (x *Exec) copyOp(st *State, fr *Frame, cc *ssa.CallCommon, args []Value, in
 			}
 		}
 		if !ok || !isNumeral(d.Len) {
-			x.fail("copy with non-constant lengths")
-			return nil
+			// source or window of unknown length: the buffer holds some bytes of the same total length afterwards
+			// (over-approximation: nothing is known about them), the count is min(len(dst), len(src))
+			cur, isTV := st.cells[d.Cell].(TV)
+			if !isTV {
+				x.fail("copy with non-constant lengths")
+				return nil
+			}
+			x.warn("copy of a byte string of unknown length into a buffer: buffer content havocked (imprecise)")
+			nv := x.freshTV("copied_buf", cur.Ty, st)
+			if total, okc := x.constLen(st, cur.T); okc {
+				x.lenHint[nv.T] = total
+				st.Assume(eq(app("blen", nv.T), fmt.Sprint(total)))
+			} else {
+				st.Assume(eq(app("blen", nv.T), app("blen", cur.T)))
+			}
+			st.cells[d.Cell] = nv
+			sl := app("blen", src.T)
+			n := ite(app("<", sl, d.Len), sl, d.Len)
+			return []Outcome{{st: st, vals: []Value{TV{T: n, Ty: tInt}}}}
 		}
 		dn, _ := strconv.ParseInt(d.Len, 10, 64)
 		n := min64(dn, sn)
